@@ -1,4 +1,5 @@
 import Uom.Model.Conv
+import Uom.Proofs.BodyEq.Serde
 /-!
 # C13 — serialization is transparent and round-trips
 
@@ -40,5 +41,23 @@ theorem rejects_iff {V Tok : Type} (de : Tok → Option V) (t : Tok) : deQ de t 
 theorem roundtrip {V Tok : Type} (ser : V → Tok) (de : Tok → Option V) (q : Q V)
     (h : de (ser q.value) = some q.value) : deQ de (serQ ser q) = some q := by
   unfold deQ serQ; simp [h]
+
+/-! ### tie to the source: the function bodies regenerated from /repo/src on this run
+
+`Gen.Body.*` below is what the translator read from the Rust source just now; `Body.run` evaluates it
+over any storage type.  These theorems state the property's code path *for the regenerated bodies*:
+they fail to check as soon as the source computes something else. -/
+section SourceTie
+open Uom.Body Uom.Gen.Body
+
+theorem src_serialize (N : NumTy) (env : Env N) (a : N.S.V) (ser : Val N) :
+    run N env system_Serialize_for_Quantity_serialize [argQ a, ser] = env.fwd m_serialize [argV a, ser] :=
+  BodyEq.serialize_eq N env a ser
+theorem src_deserialize (N : NumTy) (env : Env N) (d : Val N) :
+    run N env system_Deserialize_for_Quantity_deserialize [d]
+      = env.ext f_Ok [(env.fwd m_try [env.ext f_serde_Deserialize_deserialize [d]]).asQuantity] :=
+  BodyEq.deserialize_eq N env d
+
+end SourceTie
 
 end Uom.C13
